@@ -94,6 +94,10 @@ def run_fill(job):
     return res
 
 
+class FixedStub(SimpleNamespace):
+    pass
+
+
 def run_fixed(job):
     log = []
     lifting = recording(CLASSES[job["scheme"]], log)
@@ -105,13 +109,12 @@ def run_fixed(job):
     cnodes = [SimpleNamespace(value=u) for u in units]
     exchanged = []
     state = object()
-    stub = SimpleNamespace(
+    stub = FixedStub(
         _lifting=lifting, _leaf_units=units, _leaf_cnodes=cnodes, _active_leaf_unit=units[a], _active_leaf_unit_index=a,
         _state=state, _get_separations=lambda positions: [tuple(positions)],
         _event_rate_from_piecewise_constant_bounding_potential=lambda: dq(job["bounding"]),
         _potential=SimpleNamespace(derivative=lambda velocity, *args: ders), _get_charges=lambda: (),
         _exchange_velocity=lambda c1, c2: exchanged.append([cnodes.index(c1), cnodes.index(c2)]))
-    stub.__class__ = type("FixedSeparationsEventHandlerWithPiecewiseConstantBoundingPotential", (SimpleNamespace,), {})
     QUEUE[:] = [dq(job["u_confirm"]), dq(job["u1"]), dq(job["u2"])]
     res = {}
     try:
